@@ -170,6 +170,8 @@ def judge(case, val, out):
     if kind == "align":
         r, t, c = U(out["r"], (3, 3)), U(out["t"], 3), unhex(out["c"])
         # --- the property on the implementation's own output
+        if not np.allclose(r.T @ r, np.eye(3), atol=1e-9) or abs(np.linalg.det(r) - 1.0) > 1e-9 or not (c > 0):
+            return _sv("returned alignment is not a similarity (rotation not proper: det = %.6g, scale %.6g)" % (np.linalg.det(r), c))
         for k, (p, q) in enumerate(zip(est, after)):
             if case["os"]:
                 want_R, want_t = p[:3, :3], c * p[:3, 3]
@@ -256,16 +258,18 @@ def gen(ctx):
     rng = ctx.np_rng(4)
     cases = []
 
-    def pair(n, noise, s):
+    def pair(n, noise, s, planar=False):
         ref = mk_poses(rng, n, 10.0, float(rng.choice([0.0, 0.0, 4.5e5])), rot_mode="smooth")
         for k, p in enumerate(ref):
             p[:3, 3] += np.array([0.5 * k, math.sin(0.3 * k) * 3, 0.1 * k])
+            if planar:      # ground-vehicle data: exactly planar reference (rank-2 covariance)
+                p[2, 3] = 0.0
         ext = float(np.ptp(np.array([p[:3, 3] for p in ref]), axis=0).max())
         est = []
         T = np.eye(4)
         T[:3, :3] = rand_rot(rng)
         T[:3, 3] = rng.normal(size=3) * 20
-        for p in perturb(rng, ref, 0.05, noise * ext):
+        for p in perturb(rng, ref, 0.05, 0.0 if planar else noise * ext):
             q = p.copy()
             q[:3, 3] = q[:3, 3] / s
             est.append(T @ q)
@@ -276,7 +280,7 @@ def gen(ctx):
             n = int(rng.integers(800, 2000))
         noise = float(rng.choice([0.0, 1e-3, 0.05, 0.3, 1.0]))
         s = float(rng.choice([1.0, 1e-2, 0.3, 3.0, 1e2]))
-        ref, est = pair(n, noise, s)
+        ref, est = pair(n, noise, s, planar=(i % 5 == 3))
         mode = i % 3
         nn = -1 if i % 4 else int(rng.integers(3, n + 1))
         cases.append({"kind": "align", "est": [H(p) for p in est], "ref": [H(p) for p in ref], "cs": mode == 1, "os": mode == 2,
